@@ -9,7 +9,7 @@
 
 From Coq Require Import ZArith Bool List String.
 From TV Require Import spec.Num gen.IRAst spec.IRSem spec.CGrammar model.CPrint
-  proofs.CPrintDerives proofs.CPrintFacts.
+  proofs.CPrintDerives proofs.CPrintFacts proofs.CPrintParse proofs.CPrintSem proofs.CPrintEq.
 Import ListNotations.
 Local Open Scope nat_scope.
 
@@ -116,3 +116,67 @@ Theorem C06_assigned_value_plain :
   forall t v, sugared t v = false -> assigned_value t v = embed (rotate v).
 Proof. exact assigned_value_plain. Qed.
 Print Assumptions C06_assigned_value_plain.
+
+(** "The C compiler parses it this way" does not rest on an existence claim: the executable
+    precedence-climbing parser [cparse] is sound for [Derives], every derivation is found by it with
+    enough fuel, and therefore the grammar is deterministic. *)
+Theorem C06_cparse_sound :
+  forall ts t, cparse ts = Some t -> Derives 0 ts t.
+Proof. exact cparse_sound. Qed.
+Print Assumptions C06_cparse_sound.
+
+Theorem C06_cparse_complete :
+  forall ts t, Derives 0 ts t ->
+  exists n, forall n', n <= n' -> cparse_m n' (MExpr 0) ts = Some (t, []).
+Proof. exact cparse_m_finds. Qed.
+Print Assumptions C06_cparse_complete.
+
+Theorem C06_derives_unique :
+  forall l ts t t', Derives l ts t -> Derives l ts t' -> t = t'.
+Proof. exact derives_unique. Qed.
+Print Assumptions C06_derives_unique.
+
+(** The embedded C tree means what the IR tree means: whenever the IR abstract machine gives [e] a
+    value, C's semantics (usual arithmetic conversions, integer promotion of _Bool, short-circuit
+    && ||, the two macros expanded, the cast) gives [embed e] the same value, reading the same cells
+    (a macro reads its selected argument twice).  The converse is deliberately not claimed: C gives
+    a meaning to trees the IR machine rejects (comparisons of doubles, a _Bool used as a number), and
+    the allocation forms are statements, not pure expressions, in both. *)
+Definition C06_csem_embed_full : Prop :=
+  forall st e, cexpr_sem st (embed e) = eval st e.
+
+Theorem C06_csem_embed :
+  forall st e v tr, eval st e = Ok (v, tr) ->
+  exists tr', cexpr_sem st (embed e) = Ok (v, tr') /\ (forall x, In x tr <-> In x tr').
+Proof. exact csem_embed. Qed.
+Print Assumptions C06_csem_embed.
+
+Example C06_csem_embed_instance :
+  let st := mkState [("x"%string, (TInteger, Some (VInt 5)))] (PM.empty block) 1%positive
+                    (PM.empty tensor_s) 0%Z in
+  let e := Subtract (Var "x") (Add (IntegerLiteral (-2147483648)) (Max (Var "x") (IntegerLiteral 7))) in
+  match eval st e, cexpr_sem st (embed e) with
+  | Ok (VInt a, _), Ok (VInt b, _) => Z.eqb a 2147483646 && Z.eqb b 2147483646
+  | _, _ => false
+  end = true.
+Proof. vm_compute. reflexivity. Qed.
+
+(** [rotate] also re-nests a && (b && c) and a || (b || c) (C parses them left-nested as well); the
+    Python [rot] of tools/harness/crot.py ([rotate_arith]) does not.  The difference is invisible:
+    short-circuit evaluation is associative, value, errors and trace included. *)
+Theorem C06_rotate_logic_invisible :
+  forall st e, eval st (rotate e) = eval st (rotate_arith e).
+Proof. exact rotate_logic_invisible. Qed.
+Print Assumptions C06_rotate_logic_invisible.
+
+(** The printer selects the sugar with Python's [==] on dataclasses (the generated [expr_eqb]: float
+    literals compare numerically).  Whatever it identifies with the target evaluates like the target,
+    so [t = l + r] with [l == t] and the printed [t += r] (i.e. [t = t + r]) assign the same value. *)
+Theorem C06_sugar_identifies_equal_meaning :
+  forall t l r st,
+    expr_eqb l t = true ->
+    eval st (Add l r) = eval st (Add t r) /\
+    eval st (Subtract l r) = eval st (Subtract t r) /\
+    eval st (Multiply l r) = eval st (Multiply t r).
+Proof. exact sugared_value_eval. Qed.
+Print Assumptions C06_sugar_identifies_equal_meaning.
